@@ -20,6 +20,7 @@ func init() {
 			{"C17.length", "verification starts only after the length comparison (or for devices)", 1, c17Length},
 			{"C17.batches-tile", "batches cover every chunk index from 0 to len-1 without gaps", 4, c17Batches},
 			{"C17.rehash-all", "every chunk of every batch is re-hashed", 5, c17RehashAll},
+			{"C17.segment-keeps-all", "a file segment keeps the whole chunk list it was built from", 2, c17SegmentKeepsAll},
 			{"C17.errgroup", "workers under errgroup; success only through g.Wait()", 1, func(c *Ctx) { c.errgroupRule("VerifyIndex") }},
 			{"C17.cancel-not-success", "a cancelled verify-index never reports success", 1, func(c *Ctx) { c.doneIsErrorFor("VerifyIndex") }},
 			{"C17.errors-not-dropped", "no error of the operations this property depends on is dropped", 1, func(c *Ctx) { c.errorsNotDropped("C17") }},
@@ -308,4 +309,57 @@ func c17RehashAll(c *Ctx) {
 		}
 	}
 	c.validateRehashAll("C17")
+}
+
+// c17SegmentKeepsAll: VerifyIndex hands each batch to newFileSeedSegment and validates the
+// segment; Validate ranges over the segment's own chunk list.  The constructor must therefore keep
+// exactly the list it was given: the value stored in fileSeedSegment.chunks is the parameter
+// itself, not a re-slice of it (a cap meant for copy segments would silently exempt the rest of
+// every large batch from verification).
+func c17SegmentKeepsAll(c *Ctx) {
+	n := 0
+	for _, fn := range c.subjects() {
+		instrs(fn, func(_ *ssa.BasicBlock, _ int, ins ssa.Instruction) {
+			st, ok := ins.(*ssa.Store)
+			if !ok {
+				return
+			}
+			fa, ok := st.Addr.(*ssa.FieldAddr)
+			if !ok || fieldOf(fa) != "fileSeedSegment.chunks" {
+				return
+			}
+			n++
+			whole := true
+			why := ""
+			for _, l := range leaves(st.Val) {
+				switch x := l.(type) {
+				case *ssa.Parameter:
+				case *ssa.Slice:
+					if x.Low != nil || x.High != nil {
+						whole, why = false, "a sub-slice"
+					} else if _, isP := stripSlices(x).(*ssa.Parameter); !isP {
+						whole, why = false, "not the parameter"
+					}
+				default:
+					whole, why = false, fmt.Sprintf("%T", l)
+				}
+			}
+			c.verdict(whole, fnKey(fn)+":fileSeedSegment.chunks", ins.Pos(), "the segment keeps the whole chunk list it was given",
+				"the segment does not keep the whole chunk list it was given ("+why+"): Validate (and with it verify-index) never looks at the chunks that were cut off")
+		})
+	}
+	if n == 0 {
+		c.bad("fileSeedSegment.chunks", 0, "no construction of fileSeedSegment found")
+	}
+	// VerifyIndex validates segments built from the batch it received
+	if fn := c.mustFn("VerifyIndex"); fn != nil {
+		okB := false
+		for _, g := range withClosures(fn) {
+			for _, call := range calls(g, named("desync.newFileSeedSegment")) {
+				_ = call
+				okB = true
+			}
+		}
+		c.verdict(okB, "VerifyIndex:segment-from-batch", fn.Pos(), "each batch is validated through a fileSeedSegment", "VerifyIndex no longer validates its batches through newFileSeedSegment")
+	}
 }
